@@ -624,7 +624,7 @@ class Flow:
         for x, y in (sides, sides[::-1]):
             xn = f.nodes[f.strip(x)]
             yn = f.nodes[f.strip(y)]
-            if xn["k"] != "ref" or xn.get("dk") != "local" or not (yn["k"] == "call" and yn.get("cname") in ("end", "cend")):
+            if xn["k"] != "ref" or xn.get("dk") != "local" or not (yn["k"] == "call" and yn.get("cname") in ("end", "cend", "rend", "crend")):
                 continue
             init = self.cn.single_init().get(xn.get("decl"))
             if init is None:
